@@ -255,7 +255,12 @@ class C01(Spec):
             "schedules of larger shapes + LONG-STALL schedules (one operation suspended before each of its shared accesses "
             "in turn while the other threads complete 40-260 operations, then resumed; histories > 20 ops are judged by "
             "the cheap conditions: every popped value pushed exactly once, per-producer FIFO, final drain accounts for "
-            "everything) + REAL-PARALLEL stress lines (4/16/64 goroutines on all Ps, no hooks; ORACLE ONLY, the model is "
+            "everything; N = 130/300/1100 operations with the victim parked before each kind of CAS (link, swing, helping "
+            "swing, head) and each load, the victim being resumed at once when the cell it sleeps before shows A-B-A) + "
+            "FROZEN-HELPERS lines (a pusher frozen between link and swing, 3-8 operations frozen before their next CAS, "
+            "all resumed in random order) + HOT-QUEUE lines (1100 (thorough: ..3300) lost link-CAS races on the one queue "
+            "object before the scenario) + REUSED-OBJECT lines (3-4 threads x 30-120 operations on one queue) "
+            "+ REAL-PARALLEL stress lines (4/16/64 goroutines on all Ps, no hooks; ORACLE ONLY, the model is "
             "not consulted because the interleaving is not observable; counted separately as stress_lines); compared per step: thread, load/CAS, address class (head|tail|n<k>.next), loaded "
             "node / CAS outcome, return values, final list, final API pops. distinct by script line; non-trivial = the "
             "run contains a failed CAS or a helping CAS")
